@@ -1,0 +1,98 @@
+//go:build verif
+
+package router
+
+import (
+	"net"
+	"unsafe"
+
+	"github.com/scionproto/scion/pkg/slayers"
+)
+
+// VerifDataPlane exposes the (otherwise unexported) data plane to the external verification
+// harness. Only compiled with -tags verif.
+type VerifDataPlane struct {
+	dataPlane
+}
+
+// NewVerifDataPlane mirrors newDataPlane.
+func NewVerifDataPlane(rc RunConfig, authSCMP bool) *VerifDataPlane {
+	return &VerifDataPlane{makeDataPlane(rc, authSCMP)}
+}
+
+// VerifWrap gives hook access to the data plane inside a Connector.
+func VerifWrap(c *Connector) *VerifDataPlanePtr { return &VerifDataPlanePtr{&c.DataPlane} }
+
+// VerifDataPlanePtr is a by-reference view (used for Connector-built data planes).
+type VerifDataPlanePtr struct{ d *dataPlane }
+
+func (v *VerifDataPlanePtr) Underlay(name string) UnderlayProvider { return v.d.underlays[name] }
+func (v *VerifDataPlanePtr) Interface(ifID uint16) Link           { return v.d.interfaces[ifID] }
+
+func (d *VerifDataPlane) Underlay(name string) UnderlayProvider { return d.underlays[name] }
+func (d *VerifDataPlane) Interface(ifID uint16) Link           { return d.interfaces[ifID] }
+func (d *VerifDataPlane) LocalIA() uint64                      { return uint64(d.localIA) }
+func (d *VerifDataPlane) InitPool(processorQueueSize int)      { d.initPacketPool(processorQueueSize) }
+func (d *VerifDataPlane) SetRunning()                          { d.setRunning() }
+
+// NewPacket builds a packet the way an underlay would deliver it: payload at RawPacket[0:], with
+// the configured headroom in front, associated with the ingress link and (for unconnected links)
+// the remote address.
+func (d *VerifDataPlane) NewPacket(raw []byte, link Link, remote *net.UDPAddr) *Packet {
+	buf := &[bufSize]byte{}
+	p := &Packet{buffer: buf, RawPacket: buf[minHeadroom:], Link: link}
+	p.RawPacket = p.RawPacket[:len(raw)]
+	copy(p.RawPacket, raw)
+	if remote != nil {
+		p.RemoteAddr = unsafe.Pointer(remote)
+	}
+	return p
+}
+
+// Verif dispositions.
+const (
+	VerifDispDiscard  = int(pDiscard)
+	VerifDispForward  = int(pForward)
+	VerifDispSlowPath = int(pSlowPath)
+	VerifDispDone     = int(pDone)
+)
+
+// VerifResult is what the fast path decided.
+type VerifResult struct {
+	Disposition int
+	Egress      uint16
+	SPType      int // >= 0: SCMP type; -1/-2 router alert ingress/egress
+	SPCode      slayers.SCMPCode
+	SPPointer   uint16
+}
+
+type VerifFastPath struct{ p *scionPacketProcessor }
+
+func (d *VerifDataPlane) NewFastPath() *VerifFastPath {
+	return &VerifFastPath{newPacketProcessor(&d.dataPlane)}
+}
+
+func (f *VerifFastPath) Process(pkt *Packet) VerifResult {
+	disp := f.p.processPkt(pkt)
+	return VerifResult{
+		Disposition: int(disp),
+		Egress:      pkt.egress,
+		SPType:      int(pkt.slowPathRequest.spType),
+		SPCode:      pkt.slowPathRequest.code,
+		SPPointer:   pkt.slowPathRequest.pointer,
+	}
+}
+
+type VerifSlowPath struct{ p *slowPathPacketProcessor }
+
+func (d *VerifDataPlane) NewSlowPath() *VerifSlowPath {
+	return &VerifSlowPath{newSlowPathProcessor(&d.dataPlane)}
+}
+
+func (s *VerifSlowPath) Process(pkt *Packet) error { return s.p.processPacket(pkt) }
+
+// VerifRemote returns the underlay address attached to the packet (destination after Resolve).
+func (p *Packet) VerifRemote() *net.UDPAddr { return (*net.UDPAddr)(p.RemoteAddr) }
+
+// VerifEgress returns the egress interface chosen by the fast path.
+func (p *Packet) VerifEgress() uint16 { return p.egress }
